@@ -1690,7 +1690,14 @@ return 1;""",
 #            goto_fail = True;
 
         if need_rv_decl:
-            declare_code.append(fmt.C_rv_decl + ";")
+            # Declared first and assigned later (default arguments,
+            # fail block): a const value must be assignable.
+            declare_code.append(
+                node.ast.gen_arg_as_cxx(
+                    name=fmt_result.cxx_var, params=None,
+                    with_template_args=True, continuation=True,
+                    asgn_value=True,
+                ) + ";")
 
         # Compute return value
         if CXX_subprogram == "function":
